@@ -155,3 +155,26 @@ void harness_response_ownership(void)
 	CHECK(verif_live_blocks == blocks_base, "C07.no_block_leaked_by_refused_request");
 	WITNESS_END();
 }
+
+/* ================================================================== a batch with a member that is not an object: the connection is dropped,
+ * members before it were processed and answered, members after it are not */
+void harness_batch_garbage(void)
+{
+	__CPROVER_assume(element_hashtable_create() == 0);
+	mkpeer(&A, true);
+	int v = (int)nd_range(0, 999);
+	scn_build_begin();
+	cJSON *batch = cJSON_CreateArray();
+	cJSON_AddItemToArray(batch, mkreq("add", 1, path_params("a", v)));
+	cJSON_AddItemToArray(batch, mknumber(7));                                  /* garbage member */
+	cJSON_AddItemToArray(batch, mkreq("remove", 3, path_params("a", NO_VALUE)));
+	scn_build_end();
+	long before = verif_live_blocks;
+	int r = dispatch(&A, batch);
+	CHECK(r == -1, "C11.malformed_batch_costs_the_sender_its_connection");
+	CHECK(nlog == 1 && LOG[0].id_int == 1 && LOG[0].has_result, "C02.members_before_the_garbage_were_answered");
+	struct element *e = element_table_get("a");
+	CHECK(e && e->value->valueint == v, "C02.members_after_the_garbage_are_not_processed");
+	(void)before;
+	WITNESS_END();
+}
